@@ -158,18 +158,22 @@ func verifyPageReachable(p *common.Page, hwm common.Pgid, stack []common.Pgid, r
 	}
 
 	// Ensure each page is only referenced once.
+	// Neither the page nor any of its overflow pages may be on the free list.
+	var reachableFreed bool
 	for i := common.Pgid(0); i <= common.Pgid(p.Overflow()); i++ {
 		var id = p.Id() + i
 		if _, ok := reachable[id]; ok {
 			ch <- fmt.Errorf("page %d: multiple references (stack: %v)", int(id), stack)
 		}
 		reachable[id] = p
+		if freed[id] {
+			reachableFreed = true
+			ch <- fmt.Errorf("page %d: reachable freed", int(id))
+		}
 	}
 
 	// We should only encounter un-freed leaf and branch pages.
-	if freed[p.Id()] {
-		ch <- fmt.Errorf("page %d: reachable freed", int(p.Id()))
-	} else if !p.IsBranchPage() && !p.IsLeafPage() {
+	if !reachableFreed && !p.IsBranchPage() && !p.IsLeafPage() {
 		ch <- fmt.Errorf("page %d: invalid type: %s (stack: %v)", int(p.Id()), p.Typ(), stack)
 	}
 }
